@@ -19,6 +19,7 @@ the `_counterexample` theorem exhibits it on the regenerated model and the `_par
 import StarsimModel.Model.Compartments
 import StarsimModel.Generated.Treat_syphilis
 import StarsimModel.Lemmas.InfectionCount
+import StarsimModel.Lemmas.SimCore
 
 namespace StarsimModel.C13
 open StarsimModel.Compartments
@@ -648,5 +649,66 @@ example : ¬ (allEvents [([0, 1], [1]), ([0, 1], [1])]).Nodup := by decide
 example : NeverBefore (fun _ => none) 0 [([0, 1, 2], [1]), ([0, 2, 3], [0, 3])] := by
   simp [NeverBefore, infect]
 end distinct
+
+/-! ## Whole runs of the composed step model (SIR)
+
+`SimCore.simStep` composes — in the order regenerated from `Loop.collect_funcs` — the regenerated per-agent SIR functions
+with the `People` death handling, removal of the dead, births and the `update_results` formulas
+(Model/SimCore.lean; compared with real runs step by step and agent by agent on every check).  The statements below hold
+for EVERY initial population satisfying the invariant, EVERY event history (who is born, who is infected for how long and
+with which outcome, who dies of other causes) and EVERY number of steps. -/
+section wholeruns
+open StarsimModel.SimCore
+
+/-- **Partition over whole runs.** If every active agent starts alive and in exactly one of S, I, R, then after any
+    number of steps with any events — unless `set_prognoses` was called on an agent that was not susceptible and active,
+    which the run reports — every active agent is alive and in exactly one of S, I, R. -/
+theorem C13_run_partition (s : Sim) (evs : List Events) (h0 : ∀ a ∈ s.pop, Good a) (hb : (run s evs).bad = false) :
+    ∀ a ∈ (run s evs).pop, a.present = true → a.alive = true ∧ Sir.partition a.fl = true :=
+  fun a ha => run_inv evs s (fun _ => h0) hb a ha
+
+/-- **The dead hold no compartment, when it is recorded.** At the moment the results of a step are recorded every
+    active agent is either alive and in exactly one compartment or dead and in none. -/
+theorem C13_step_dead_cleared (s : Sim) (ev : Events) (h0 : ∀ a ∈ s.pop, Good a) (hb : (simStep s ev).bad = false) :
+    ∀ a ∈ midPop s ev, a.present = true →
+      (a.alive = true ∧ Sir.partition a.fl = true) ∨ (a.alive = false ∧ Sir.cleared a.fl = true) :=
+  midPop_mid s ev (fun _ => h0) hb
+
+/-- **Recorded compartment sizes add up to the recorded number alive, in every row of every run**, and the recorded
+    prevalence is `n_infected / n_alive`. -/
+theorem C13_run_rows_balanced (s : Sim) (evs : List Events) (h0 : ∀ a ∈ s.pop, Good a) (hr : s.rows = [])
+    (hb : (run s evs).bad = false) :
+    ∀ r ∈ (run s evs).rows, r.nS + r.nI + r.nR = r.nAlive ∧ r.prevNum = r.nI ∧ r.prevDen = r.nAlive :=
+  run_rows_balanced evs s (fun _ => h0) (by rw [hr]; intro r hr'; cases hr') hb
+
+/-- one row per step, indices consecutive -/
+theorem C13_run_rows_length (s : Sim) (evs : List Events) :
+    (run s evs).rows.length = s.rows.length + evs.length ∧ (run s evs).ti = s.ti + evs.length :=
+  run_rows_length evs s
+
+/-- The admissibility hypothesis cannot be dropped: infecting a recovered agent leaves it in two compartments
+    (on the regenerated functions). -/
+theorem C13_run_partition_needs_admissible :
+    let s : Sim := ⟨0, [⟨true, true, none, ⟨false, false, true⟩, Gen.Sir.Timers.const none⟩], [], false⟩
+    let s' := simStep s ⟨0, [], [[⟨0, 1, false⟩]]⟩
+    (∀ a ∈ s.pop, Good a) ∧ s'.bad = true ∧ ∃ a ∈ s'.pop, a.present = true ∧ Sir.partition a.fl = false := by
+  refine ⟨by intro a ha; simp at ha; subst ha; intro _; decide, by decide +kernel, ?_⟩
+  exact ⟨_, List.mem_cons_self .., by decide +kernel, by decide +kernel⟩
+
+/-- non-vacuity: a three-step run with a birth, a background death, an infection that recovers and one that kills -/
+def exSim : Sim :=
+  ⟨0, [⟨true, true, none, ⟨true, false, false⟩, Gen.Sir.Timers.const none⟩,
+       ⟨true, true, none, ⟨false, true, false⟩, ⟨some 0, some (3 / 2), none⟩⟩,
+       ⟨true, true, none, ⟨false, true, false⟩, ⟨some 0, none, some 1⟩⟩], [], false⟩
+def exEvents : List Events := [⟨1, [], [[⟨0, 5 / 2, false⟩]]⟩, ⟨0, [3], []⟩, ⟨0, [], []⟩]
+
+example : (∀ a ∈ exSim.pop, Good a) ∧ (run exSim exEvents).bad = false := by
+  constructor
+  · intro a ha; simp only [exSim, List.mem_cons, List.mem_nil_iff, or_false] at ha
+    rcases ha with rfl | rfl | rfl <;> intro _ <;> decide
+  · decide +kernel
+example : (run exSim exEvents).rows =
+    [⟨0, 4, 0, 0, 1, 3, 0, 3, 3, 3, 4⟩, ⟨1, 2, 2, 0, 0, 2, 0, 0, 3, 2, 2⟩, ⟨2, 2, 0, 2, 0, 1, 1, 0, 3, 1, 2⟩] := by decide +kernel
+end wholeruns
 
 end StarsimModel.C13
